@@ -14,6 +14,9 @@ thread_local! {
     pub static CBFUSE: Cell<u64> = Cell::new(0);
     /// number of user callbacks run so far
     pub static CBCOUNT: Cell<u64> = Cell::new(0);
+    /// when non-zero: the `Hash::hash` / `Eq::eq` call on an item whose ordinal reaches this value panics
+    pub static HKFUSE: Cell<u64> = Cell::new(0);
+    pub static HKCOUNT: Cell<u64> = Cell::new(0);
     /// number of live `SItem` + `Pri` values (for leak / double-drop detection)
     pub static LIVE: Cell<i64> = Cell::new(0);
     /// total number of drops observed
@@ -31,6 +34,18 @@ pub fn cb_tick() {
     if CBFUSE.with(|f| f.get()) == n {
         CBFUSE.with(|f| f.set(0));
         panic!("injected: callback panic");
+    }
+}
+
+/// called by every `Hash::hash` and `Eq::eq` of an item
+pub fn hk_tick() {
+    let n = HKCOUNT.with(|c| {
+        c.set(c.get() + 1);
+        c.get()
+    });
+    if HKFUSE.with(|f| f.get()) == n {
+        HKFUSE.with(|f| f.set(0));
+        panic!("injected: hash/eq panic");
     }
 }
 
@@ -94,6 +109,7 @@ impl Drop for SItem {
 }
 impl PartialEq for SItem {
     fn eq(&self, o: &Self) -> bool {
+        hk_tick();
         self.name == o.name
     }
 }
@@ -101,6 +117,7 @@ impl Eq for SItem {}
 impl Hash for SItem {
     fn hash<H: Hasher>(&self, h: &mut H) {
         // identical to `str`'s Hash, as `Borrow<str>` requires
+        hk_tick();
         self.name.as_str().hash(h)
     }
 }
